@@ -243,6 +243,75 @@ def sync_oracle(case, lines):
     return None
 
 
+# ---- rate limiters: the emitter against the window task (C09) ---------------------------------------
+RATE_OPS = [(["throttle", "3", "l"], 3), (["throttle", "3", "t"], 3), (["throttle", "3", "a"], 3), (["throttle", "0", "a"], 0),
+            (["throttle", "0", "t"], 0), (["debounce", "3"], 3), (["debounce", "0"], 0), (["buftime", "3"], 3),
+            (["bufcounttime", "2", "3"], 3)]
+
+
+# every task polled (its timer is armed by its FIRST poll), a long quiet period, everything run: nothing is pending then
+TAIL_RATE = [["run"], ["adv", "20"], ["run"], E(99), ["run"], ["adv", "20"], ["run"]]
+
+
+def rate_cases(tier):
+    """ONE emitter (items 1, 2, 7, 99 in this order) against the executor on another OS thread: the emitter preempted
+    at each of its lock acquisitions while the window / flush task is polled (and the other way round); no
+    unsubscription, no terminal; then a long quiet period with everything run."""
+    out = []
+    for opv, d in RATE_OPS:
+        pipe = opv + [["hot", "0"]]
+        for pre in prefixes(d):
+            for a, b, kmax in ((E(7), ["poll", "0"], 12), (E(7), ["run"], 12), (["poll", "0"], E(7), 6), (["run"], E(7), 8),
+                               (E(7), ["poll", "1"], 12)):
+                for k in range(kmax + 1):
+                    out.append(mk(pipe, pre + [["par", str(k), a, b]] + TAIL_RATE, "coop-rate"))
+    return out
+
+
+def flat_items(tok):
+    """N7 -> ['7'];  N(l 1 2) -> ['1','2']; terminals / R -> []"""
+    if tok.startswith("N(l"):
+        return tok[3:-1].split()
+    if tok.startswith("N"):
+        return [tok[1:]]
+    return []
+
+
+def rate_oracle(case, lines):
+    """C09 on the implementation's output of a `coop-rate` case: only source items, each at most once, in source order;
+    after the quiet period the trailing edge / debounce / the buffer has handed over the LAST item."""
+    f = oracle(case, lines, quiet=False)
+    if f:
+        return f
+    emitted, delivered, quiet_at = [], [], None
+    for k, ev in enumerate(case.events):
+        ops = [ev[2], ev[3]] if ev[0] == "par" else [ev]
+        for o in ops:
+            if o[0] == "emit" and isinstance(o[2], list) and o[2][0] == "n":
+                emitted.append(o[2][1])
+        got = parse_line(lines.get(k))
+        if not got or "o" not in got:
+            continue
+        for tok in got["o"]:
+            for it in flat_items(tok):
+                if it not in emitted:
+                    return {"kind": "invented-item", "event": k, "detail": f"{it} delivered, emitted so far {emitted}"}
+                if it in delivered:
+                    return {"kind": "duplicate-item", "event": k, "detail": f"{it} delivered twice ({lines.get(k)})"}
+                if delivered and emitted.index(it) < emitted.index(delivered[-1]):
+                    return {"kind": "reordered", "event": k,
+                            "detail": f"{it} delivered after {delivered[-1]}; source order {emitted}"}
+                delivered.append(it)
+        # the quiet period: run (arms the timers), `adv 20`, run — with no emission in between
+        if k > 1 and case.events[k - 2:k + 1] == [["run"], ["adv", "20"], ["run"]] and emitted:
+            head = case.field("pipe")[0]
+            trailing = head[0] in ("debounce", "buftime", "bufcounttime") or (head[0] == "throttle" and head[2] in ("t", "a"))
+            if trailing and emitted[-1] not in delivered:
+                return {"kind": "last-item-lost", "event": k,
+                        "detail": f"emitted {emitted}, delivered {delivered} after a quiet period of 20 with every task run"}
+    return None
+
+
 def cases(tier, seed):
     rng = random.Random(seed + 2002)
     out = exhaustive(tier)
